@@ -9,7 +9,12 @@
      nid     network id carried inside the signed bytes; 0 = unspecified (old format)
      body    the decided value: block id + part-set id ("nil" = nil vote, votes only)
      aux     the remaining signed field (vote timestamp / proposal POL round)
-   Signatures are symbolic: two messages have the same signed hash iff all seven fields agree.
+   and one component that the signature does NOT cover:
+     u       the BTP part a precommit carries next to its signed bytes (NTSVoteBases / NTSDProofParts:
+             0 = none, 1, 2 = two different lists); the signed bytes of a vote are its height, round, type,
+             block id, part-set id and timestamp only.  Prevotes and proposals have no unsigned part.
+   Signatures are symbolic: two messages have the same signed hash iff the seven signed fields agree;
+   anybody can re-encode a genuine vote with another u and the same signature.
 
    State: the double-sign-message log of one node (dsmLog), a partial map from
    (kind, signer, height, round) to the last logged message.  Actions:
@@ -17,13 +22,17 @@
      Check(m1, m2)   DoubleSignData.IsConflictWith of two decoded messages, the predicate used by
                      doubleSignReportTx.PreValidate for a report found in a transaction. *)
 EXTENDS Integers, Sequences, FiniteSets, TLC
-CONSTANTS Signers, Heights, Rounds, Nids, Bodies, Auxes, MaxOps,
+CONSTANTS Signers, Heights, Rounds, Nids, Bodies, Auxes, Us, MaxOps,
           Ops      \* enabled calls, a subset of {"recv", "check"} (bounds the exhaustive runs)
 
 Kinds == {"prevote", "precommit", "proposal"}
 NoMsg == [kind |-> "none"]
 Msgs == {m \in [kind : Kinds, signer : Signers, height : Heights, round : Rounds, nid : Nids,
-                body : Bodies, aux : Auxes] : m.kind = "proposal" => m.body # "nil"}
+                body : Bodies, aux : Auxes, u : Us] :
+             /\ m.kind = "proposal" => m.body # "nil"
+             /\ m.kind # "precommit" => m.u = 0}
+\* what the signature covers
+Signed(m) == [m EXCEPT !.u = 0]
 Keys == [kind : Kinds, signer : Signers, height : Heights, round : Rounds]
 KeyOf(m) == [kind |-> m.kind, signer |-> m.signer, height |-> m.height, round |-> m.round]
 
@@ -40,7 +49,7 @@ Conflict(m1, m2) ==
   /\ m1.height = m2.height
   /\ m1.round = m2.round
   /\ MatchNid(m1.nid, m2.nid)
-  /\ m1 # m2                      \* signed contents differ (symbolic hash)
+  /\ Signed(m1) # Signed(m2)      \* signed contents differ (symbolic hash); the unsigned part is irrelevant
 
 Init == log = [k \in Keys |-> NoMsg] /\ hist = <<>>
 
@@ -79,16 +88,20 @@ SameSlot == [][Reports => KeyOf(Pair(Last)[1]) = KeyOf(Pair(Last)[2])]_vars
 SameNetwork == [][Reports => LET p == Pair(Last) IN
                                ~(p[1].nid # 0 /\ p[2].nid # 0 /\ p[1].nid # p[2].nid)]_vars
 \* ... whose signed contents differ.
-Differ == [][Reports => Pair(Last)[1] # Pair(Last)[2]]_vars
+Differ == [][Reports => Signed(Pair(Last)[1]) # Signed(Pair(Last)[2])]_vars
 \* the log reports and keeps only messages it has been given: a slot changes only to the
 \* received message, and the reported old message is the one that was logged
 LogFromInputs ==
   [][(Stepped /\ Last.op = "recv") =>
         /\ \A k \in Keys : log'[k] # log[k] => (k = KeyOf(Last.m) /\ log'[k] = Last.m)
         /\ Last.ev => (Last.old = log[KeyOf(Last.m)] /\ Last.old # NoMsg /\ log' = log)]_vars
-\* a message repeated verbatim never yields evidence, whatever the log holds
+\* a message repeated verbatim, or re-encoded with another unsigned part, never yields evidence
 RepeatIsSilent ==
-  [][(Stepped /\ Last.op = "recv" /\ log[KeyOf(Last.m)] = Last.m) => ~Last.ev]_vars
+  [][(Stepped /\ Last.op = "recv" /\ log[KeyOf(Last.m)] # NoMsg
+              /\ Signed(log[KeyOf(Last.m)]) = Signed(Last.m)) => ~Last.ev]_vars
+\* one genuine message can never be turned into evidence against its signer, and the unsigned part
+\* cannot hide a genuine conflict either
+UnsignedIrrelevant == \A m1, m2 \in Msgs : Conflict(m1, m2) = Conflict(Signed(m1), Signed(m2))
 \* the predicate does not depend on the argument order (a report [a,b] is as good as [b,a])
 Symmetric == \A m1, m2 \in Msgs : Conflict(m1, m2) = Conflict(m2, m1)
 =============================================================================
